@@ -83,8 +83,13 @@ static void	cleanup(void *);
 int
 archive_write_disk_set_standard_lookup(struct archive *a)
 {
-	struct bucket *ucache = calloc(cache_size, sizeof(struct bucket));
-	struct bucket *gcache = calloc(cache_size, sizeof(struct bucket));
+	struct bucket *ucache, *gcache;
+
+	/* The setters below refuse a failed handle; the caches would leak. */
+	archive_check_magic(a, ARCHIVE_WRITE_DISK_MAGIC, ARCHIVE_STATE_ANY,
+	    "archive_write_disk_set_standard_lookup");
+	ucache = calloc(cache_size, sizeof(struct bucket));
+	gcache = calloc(cache_size, sizeof(struct bucket));
 	if (ucache == NULL || gcache == NULL) {
 		free(ucache);
 		free(gcache);
